@@ -251,6 +251,14 @@ fn run_script(out: &mut Out, v: &TraceVdaf, s_l: u8, s_h: u8, toks: &[&str], lin
             events.push("undecodable".into());
             continue;
         };
+        let kind = |m: &PingPongMessage| match m {
+            PingPongMessage::Initialize { .. } => 0,
+            PingPongMessage::Continue { .. } => 1,
+            PingPongMessage::Finish { .. } => 2,
+        };
+        // is this delivery anything other than the message the peer really sent?
+        let altered = *tok != "c" && m2.get_encoded().ok() != m.get_encoded().ok();
+        let wrong_kind = kind(&m2) != kind(&m);
         let party = if to_leader { w.leader.clone() } else { w.helper.clone() };
         let cont: Option<Result<Cont, ()>> = match &party {
             Party::New => {
@@ -317,9 +325,11 @@ fn run_script(out: &mut Out, v: &TraceVdaf, s_l: u8, s_h: u8, toks: &[&str], lin
                 w.outbox = None;
             }
         }
-        // a mutated delivery that was accepted must not have released an output share it should not
-        if *tok != "c" && matches!(newp, Party::Finished(_)) {
-            released_on_error = true;
+        // "any message of the wrong kind, from the wrong round, duplicated or undecodable is refused
+        // without releasing an output share": an altered delivery must not be processed at all
+        if altered {
+            released_on_error |= matches!(newp, Party::Finished(_));
+            out.oracle(false, || line.to_string(), || format!("delivery '{}' ({}) was accepted{}", tok, if wrong_kind { "message of the wrong kind" } else { "altered, replayed or stale message" }, if matches!(newp, Party::Finished(_)) { " and released an output share" } else { "" }));
         }
         w.stale = stale;
         if to_leader {
@@ -338,6 +348,11 @@ fn run_script(out: &mut Out, v: &TraceVdaf, s_l: u8, s_h: u8, toks: &[&str], lin
         out.oracle(Some(o) == expect.as_ref().map(|e| &e.1), || line.to_string(), || "helper finished with an output that is not the broadcast output".into());
     }
     let _ = released_on_error;
+    // a script of correct deliveries long enough to complete must complete, at both parties
+    let correct = toks.iter().filter(|t| **t == "c").count();
+    if toks.iter().all(|t| *t == "c" || *t == "Li") && toks.first() == Some(&"Li") && correct >= v.rounds as usize + 1 {
+        out.oracle(matches!(w.leader, Party::Finished(_)) && matches!(w.helper, Party::Finished(_)), || line.to_string(), || format!("an honest exchange of {} rounds did not finish at both parties: {}, {}", v.rounds, show(&w.leader), show(&w.helper)));
+    }
     events.join(" ")
 }
 
